@@ -70,3 +70,41 @@ def check_table(ctx, rep, rid, adt, table, allow_in=()):
             for form, b, ln in got:
                 rep.ob(rid, fn, '%s = %s' % (field, form), ok, '%s:%s' % (b.file, ln),
                        None if ok else '`%s.%s` is written by a function that is not one of its confirmed writers (%s)' % (adt.split('::')[-1], field, sorted(per_fn)))
+
+
+def call_arg_forms(ctx, fn, callee_suffix, skip_self=True):
+    """[(line, 'arg1, arg2, ...')] canonical argument forms of every user call in fn (and its closures) to a callee
+    whose name ends with callee_suffix"""
+    from mir import canon
+    out = []
+    defs = [d for d in ctx.facts.body_defs() if d == fn or d.startswith(fn + '::{closure')]
+    for d in sorted(defs):
+        b = ctx.body(d)
+        for c in b.calls:
+            if c.x.startswith('m:') or not (c.name.endswith('::' + callee_suffix) or c.name == callee_suffix):
+                continue
+            args = c.args[1:] if skip_self else c.args
+            out.append((c.ln, ', '.join(canon(b.pexpr_operand(a), 0, 1) for a in args), b))
+    return out
+
+
+def check_call_args(ctx, rep, rid, table):
+    """table: {fn: {callee_suffix: [expected 'a, b' forms (set)]}}: every call must use an expected form, every expected
+    form must be used"""
+    for fn, per in table.items():
+        if not ctx.has(fn):
+            rep.anchor_lost(rid, fn)
+            continue
+        for callee, expected in per.items():
+            got = call_arg_forms(ctx, fn, callee)
+            matched = set()
+            for ln, form, b in got:
+                m = _match(form, expected)
+                if m is not None:
+                    matched.add(m)
+                    rep.ob(rid, fn, '%s(%s)' % (callee.split('::')[-1], form), True, '%s:%s' % (b.file, ln), None)
+                else:
+                    rep.ob(rid, fn, '%s(%s)' % (callee.split('::')[-1], form), False, '%s:%s' % (b.file, ln),
+                           '%s is called with `%s`; the argument forms confirmed for this call are %s' % (callee, form, sorted(expected)))
+            for form in sorted(set(expected) - matched):
+                rep.ob(rid, fn, '%s(%s)' % (callee.split('::')[-1], form), False, None, 'the call %s(%s) expected in this function is missing' % (callee, form))
